@@ -90,6 +90,7 @@ class PathCtx(object):
         self.portfolio = {}
         self.deferred = {}
         self.facts = {}
+        self.bool_facts = []
         self._const_cache = {}
         self._keep = []        # keeps decided ASTs alive so that ids are not reused
         self.witness_incomplete = False
@@ -234,6 +235,14 @@ class PathCtx(object):
         key = base.get_id()
         if key in self.decided:
             return self.decided[key] != neg
+        if self.bool_facts:
+            # decided boolean inputs substituted: many conditions become constants
+            simp = self.simplify_under_bool_facts(base)
+            if z3.is_true(simp) or z3.is_false(simp):
+                val = z3.is_true(simp)
+                self.decided[key] = val
+                self._keep.append(base)
+                return val != neg
         r = self._branch(cond)
         self.decided[key] = (r != neg)
         self._keep.append(base)
@@ -247,6 +256,8 @@ class PathCtx(object):
         if k in self.facts:
             return
         self.facts[k] = (e, val)
+        if z3.is_const(e) and e.decl().kind() == z3.Z3_OP_UNINTERPRETED and z3.is_bool(e):
+            self.bool_facts.append((e, z3.BoolVal(val)))
         if z3.is_not(e):
             self._learn(e.arg(0), not val)
         elif z3.is_and(e) and val:
@@ -255,6 +266,9 @@ class PathCtx(object):
         elif z3.is_or(e) and not val:
             for c in e.children():
                 self._learn(c, False)
+
+    def simplify_under_bool_facts(self, expr):
+        return z3.simplify(z3.substitute(expr, *self.bool_facts))
 
     def simplify_under_facts(self, expr):
         if not self.facts:
